@@ -20,7 +20,7 @@ def run(ctx):
                         {"scens": two, "policies": ("FIFO", "LIFO") + wcat.POL_PROC, "bound": 2, "demote": "only", "cap": 200000}]),
         # thorough: two deviations at most 15 scheduling steps apart under LIFO as well
         *([] if q else [{"scens": two, "policies": ("LIFO",), "bound": 2, "window": 15, "demote": True, "cap": 400000}]),
-        {"scens": wcat.nested_scenarios()[1:], "policies": ("FIFO",), "bound": 1, "cap": 20000},
+        {"scens": wcat.nested_scenarios()[1:], "policies": ("FIFO", "LIFO", "JOBS"), "bound": 1, "demote": True, "cap": 30000},
     ]
     return run_w(ctx, PROPERTY, plan,
                  "token workloads (capacity; requests) in {(1;1,1) (1;1,1,1) (2;1,1,1) (2;2,1) (3;2,1) (3;2,2) (2;1,2,1)}, failing holder, chain / fork "
